@@ -271,7 +271,32 @@ func suiteCrash(seed uint64, n int, work string, power bool, sparse bool) {
 		if len(events) > 120 {
 			step = len(events)/120 + 1
 		}
-		for e := 0; e <= len(events); e += step {
+		// crash points outside the window of known finding F32 first: a call that never returns ends the run, and inside
+		// that window it is attributed to the finding — what lies outside must have been examined by then
+		inF32 := func(e int) bool {
+			if !sparse {
+				return false
+			}
+			for _, sp := range spans {
+				if sp.start <= e && e < sp.end {
+					for k := sp.start; k < sp.end && k < len(events); k++ {
+						if strings.HasPrefix(events[k].Path, "bpt/") || strings.HasPrefix(events[k].Path, "meta/") {
+							return true
+						}
+					}
+				}
+			}
+			return false
+		}
+		var points []int
+		for pass := 0; pass < 2; pass++ {
+			for e := 0; e <= len(events); e += step {
+				if inF32(e) == (pass == 1) {
+					points = append(points, e)
+				}
+			}
+		}
+		for _, e := range points {
 			var admissible []int
 			inflight := false
 			for _, sp := range spans {
